@@ -50,7 +50,7 @@ MANIFEST = dict(
               "the event log",
 )
 FLOORS = {"C13.1": 1, "C13.2": 3, "C13.3": 2, "C13.4": 6, "C13.5": 1,
-          "C13.6": 8, "C13.7": 3}
+          "C13.6": 8, "C13.7": 3, "C13.8": 2}
 
 MR = "evo.core.result.merge_results"
 RES = tm.param("results")
@@ -549,6 +549,13 @@ def check(ctx):
 
     ctx.section(_tables, ctx, prog)
     ctx.section(_res_parser, ctx, prog)
+    # "exactly the statistics stored in that file": the loader hands back
+    # the stored dictionaries as they are — no entry filtered out, e.g. a
+    # statistic that is exactly 0.0 (instances of C06.3, load side)
+    from ..core import import_rules
+    n = import_rules(ctx, "c06", ("C06.3",), "C13.8",
+                     pred=lambda o: ":load:" in o.key)
+    ctx.require(n >= 2, "C13.8: result loader instances not found")
 
 
 def _res_parser(ctx, prog):
